@@ -81,7 +81,8 @@ def finish(args, P, results, bounded, known, ax_n, t0, seed):
             hit = next((f for f in known if f.get("status") == "known" and f.get("property") == prop
                         and f.get("bounded") == b.get("name")
                         and (f.get("case_class") == v.get("case_class")
-                             or (f.get("case_class_glob") and fnmatch.fnmatchcase(v.get("case_class") or "", f["case_class_glob"])))), None)
+                             or (f.get("case_class_glob") and fnmatch.fnmatchcase(v.get("case_class") or "", f["case_class_glob"])))
+                        and (not f.get("detail_contains") or f["detail_contains"] in (v.get("detail") or ""))), None)
             if hit is not None:
                 known_hits.append((hit, {"name": f"bounded:{b.get('name')}:{v.get('case_class')}"}, None))
             else:
